@@ -102,7 +102,10 @@ Fixpoint run_task (fuel : nat) (maxr : Z) (lk : bool) (ns : list nop) (xs : list
 (* ---------- jobs *)
 
 Record part := mkPart { p_data : list Z; p_plan : plan; p_nest : list nop }.
-Record job := mkJob { j_action : Z; j_pre : Z; j_post : Z; j_parts : list part }.
+(* j_eager: the injected task function computes its whole output when the partition is computed
+   (True) or is a generator that runs when it is consumed (False); irrelevant to actions that evaluate
+   whole partitions, decisive for take/first/isEmpty *)
+Record job := mkJob { j_action : Z; j_eager : bool; j_pre : Z; j_post : Z; j_parts : list part }.
 
 (* the function library of the harness (py/c04.py FUNCS) *)
 Definition fn (c : Z) (x : Z) : Z :=
@@ -200,11 +203,87 @@ Definition run_job (mode : Z) (maxr : Z) (lk : bool) (j : job) : outcome * bool 
       tasks_of mode (Z.to_nat maxr) maxr lock_on_entry j 0 (j_parts j) in
     (mkOut (finish j r) logs, match r with KOk _ => lock_after_ok | _ => lock_after_error end).
 
+(* ---------- the lazily evaluated actions take(n), first(), isEmpty()
+
+   runJob(..., lambda tc, i: i, allowLocal=True, resultHandler = islice(chain(...), n)): always the local
+   path; a partition is computed only when the result handler asks for its first element, and its
+   elements are pulled one by one.  If the task function is a generator, nothing of it runs inside
+   _run_task's try: its first error reaches the caller directly, without retry.  If it is eager, the
+   error happens while the partition is computed and the ordinary retry applies. *)
+Definition E_STOP : Z := 5.          (* StopIteration: first() of an empty dataset *)
+Definition E_SUSPENDED : Z := -2.    (* log entry of a generator that was neither finished nor failed *)
+
+Definition is_lazy (a : Z) : bool := 9 <=? a.
+Definition lazy_need (a : Z) : nat := if a <=? 14 then Z.to_nat (a - 9) else 1%nat.
+
+Inductive lres := LOk (got : list Z) | LErr (exc : Z) (idx : Z) (attempts : Z) | LFuel.
+
+Definition lcons (ys : list Z) (r : lres) : lres := match r with LOk got => LOk (ys ++ got) | _ => r end.
+
+Fixpoint lazy_tasks (fuel : nat) (maxr : Z) (lk : bool) (j : job) (idx : Z) (need : nat) (ps : list part)
+  : lres * list (list arec) * bool :=
+  match ps with
+  | [] => (LOk [], [], lk)
+  | p :: rest =>
+      match need with
+      | O => (LOk [], no_logs ps, lk)
+      | S _ =>
+          let xs := stage_in j p in
+          if j_eager j then
+            let '(t, log, lk1) := run_task fuel maxr lk (p_nest p) xs (p_plan p) 0 in
+            match t with
+            | TOk ys =>
+                if (need <=? length ys)%nat then (LOk (firstn need ys), log :: no_logs rest, lk1)
+                else let '(r, logs, lk2) := lazy_tasks fuel maxr lk1 j (idx + 1) (need - length ys) rest in
+                     (lcons ys r, log :: logs, lk2)
+            | TErr e a => (LErr e idx a, log :: no_logs rest, lk1)
+            | TFuel => (LFuel, log :: no_logs rest, lk1)
+            end
+          else
+            let '(o, raised, lk1) := run_nested lk (p_nest p) in
+            if raised then (LErr E_LOCKED idx 1, [mkRec 1 o [] (Some E_LOCKED)] :: no_logs rest, lk1)
+            else
+              let f := hd None (p_plan p) in
+              let avail := match f with None => xs | Some ft => seen_of (f_pos ft) xs end in
+              if (need <=? length avail)%nat
+              then (LOk (firstn need avail), [mkRec 1 o (firstn need avail) (Some E_SUSPENDED)] :: no_logs rest, lk1)
+              else match f with
+                   | Some ft => (LErr (f_exc ft) idx 1, [mkRec 1 o avail (Some (f_exc ft))] :: no_logs rest, lk1)
+                   | None =>
+                       let '(r, logs, lk2) := lazy_tasks fuel maxr lk1 j (idx + 1) (need - length xs) rest in
+                       (lcons xs r, [mkRec 1 o xs None] :: logs, lk2)
+                   end
+      end
+  end.
+
+Definition lazy_finish (j : job) (r : lres) : jres :=
+  match r with
+  | LOk got =>
+      let out := map (fn (j_post j)) got in
+      if j_action j <=? 14 then JOk (vints out)
+      else if j_action j =? 15 then match out with x :: _ => JOk (VInt x) | [] => JErr E_STOP 0 0 end
+      else JOk (VBool (match out with [] => true | _ => false end))
+  | LErr e i a => JErr e i a
+  | LFuel => JFuel
+  end.
+
+Definition run_lazy_job (maxr : Z) (lk : bool) (j : job) : outcome * bool :=
+  if rdd_init_refused lk then (mkOut JRefused (no_logs (j_parts j)), lk)
+  else if job_refused lk then (mkOut JRefused (no_logs (j_parts j)), lk)
+  else
+    let '(r, logs, _) := lazy_tasks (Z.to_nat maxr) maxr lock_on_entry j 0 (lazy_need (j_action j)) (j_parts j) in
+    let res := lazy_finish j r in
+    (mkOut res logs, match res with JOk _ => lock_after_ok | _ => lock_after_error end).
+
+(* any job *)
+Definition run_any (mode : Z) (maxr : Z) (lk : bool) (j : job) : outcome * bool :=
+  if is_lazy (j_action j) then run_lazy_job maxr lk j else run_job mode maxr lk j.
+
 Fixpoint run_jobs (mode : Z) (maxr : Z) (lk : bool) (js : list job) : list outcome * bool :=
   match js with
   | [] => ([], lk)
   | j :: rest =>
-      let '(o, lk1) := run_job mode maxr lk j in
+      let '(o, lk1) := run_any mode maxr lk j in
       let '(os, lk2) := run_jobs mode maxr lk1 rest in
       (o :: os, lk2)
   end.
